@@ -16,15 +16,15 @@ CONTRACTS = [dict(
 # discretised delays (integers, fixed step) are implemented iff the largest one exceeds ONE step — 1 is the placeholder for "no delay"
 # (None -> 1) and delays that round to at least two steps are inside the property's quantifier; undiscretised delays (floats,
 # adaptive step) iff the largest one exceeds the step size.  `max_delay` is the role of the local the np.max statement assigns.
-_REG = dict(kind="assign", match="np.max(means)", nth=0, count=2)
+_REG = dict(kind="assign", match="np.max(means)", nth=0, upto="if sum(stds) == 0")      # up to (excluding) the statement after the decision
 CONTRACTS += [
     dict(name="NetworkGraph._collect_delays_from_edges@add-delay[discretised]", prop="C09", target=f"{F}::NetworkGraph._collect_delays_from_edges",
          region=_REG, params={"self": "obj:NetworkGraph", "means": "seq[int]"}, requires=["len(means) >= 1", "self.step_size > 0"],
          ensures=["add_delay == (max_delay > 1)", "forall(0, len(means), lambda k: implies(means[k] >= 2, add_delay))",
                   "implies(forall(0, len(means), lambda k: means[k] <= 1), not add_delay)"],
-         abstractions={"np.max": A.seq_max}, modifies=[], bind_locals={"max_delay": (0, 0), "add_delay": (1, 0)}),
+         abstractions={"np.max": A.seq_max}, modifies=[], bind_locals={"max_delay": (0, 0), "add_delay": (-1, 0)}),
     dict(name="NetworkGraph._collect_delays_from_edges@add-delay[continuous]", prop="C09", target=f"{F}::NetworkGraph._collect_delays_from_edges",
          region=_REG, params={"self": "obj:NetworkGraph", "means": "seq[real]"}, requires=["len(means) >= 1", "self.step_size > 0"],
          ensures=["add_delay == (max_delay > self.step_size)", "forall(0, len(means), lambda k: implies(means[k] > self.step_size, add_delay))"],
-         abstractions={"np.max": A.seq_max}, modifies=[], bind_locals={"max_delay": (0, 0), "add_delay": (1, 0)}),
+         abstractions={"np.max": A.seq_max}, modifies=[], bind_locals={"max_delay": (0, 0), "add_delay": (-1, 0)}),
 ]
